@@ -218,6 +218,12 @@ def hazards(src, host, kind, start, end, rname, opts, starts):
                 twins = [n for n in ast.walk(host) if isinstance(n, ast.expr) and hasattr(n, "lineno") and n is not region_nodes[0] and ast.dump(n) == want_dump]
             if twins:
                 first = min([start] + [off(n) for n in twins])
+                # the definition is placed in front of the statement of the host's own body that holds the earliest
+                # occurrence (a whole if / for / while block): writes count from there
+                for st_ in host.body:
+                    if off(st_) <= first <= off(st_, True):
+                        first = off(st_)
+                        break
                 # a target is bound after its statement's value was evaluated: it counts from the END of that statement
                 bound_at = {}
                 for st_ in ast.walk(host):
